@@ -309,6 +309,21 @@ class DictState:
             node.children.append(Tree(PL.alias_of(n[1], "set", sp[1]), [Tree("string", [Token("STRING", lit)])]))
             self.nodes[i] = ["block", n[1], None, list(n[3]) + [["set", sp[1], op[3]]]]
             self._modified()
+        elif kind == "siblings":
+            # profiles parsed from the same text are separate objects: modifying one leaves the others, and later
+            # parses of that text, as they were
+            text = lib(self.profile.as_text, what="as_text")
+            a = lib(c2profile.C2Profile.from_text, text, what="from_text")
+            b = lib(c2profile.C2Profile.from_text, text, what="from_text (same text again)")
+            before_d, before_t = dict(lib(b.as_dict, what="as_dict")), lib(b.as_text, what="as_text")
+            lib(a.set_option, "jitter", "97", what="set_option on the first sibling")
+            if op[1]:
+                lib(a.set_config_block, "stage", c2profile.StageBlock(userwx="true"), what="set_config_block on the first sibling")
+            after_d, after_t = dict(lib(b.as_dict, what="as_dict")), lib(b.as_text, what="as_text")
+            third = lib(c2profile.C2Profile.from_text, text, what="from_text (after the modification)")
+            check(after_d == before_d and after_t == before_t, "siblings:shared_state", lambda: f"modifying one profile parsed from a text changed another profile parsed from the same text: {sorted(set(after_d) ^ set(before_d))}")
+            check(dict(lib(third.as_dict)) == before_d, "siblings:later_parse_differs", "a profile parsed after a sibling was modified differs from one parsed before")
+            check("97" in (lib(a.as_dict).get("jitter") or []), "siblings:modification_lost", "the modified sibling does not show its own modification")
         elif kind in ("as_dict", "properties"):
             d = lib(self.profile.as_dict if kind == "as_dict" else (lambda: self.profile.properties), what=kind)
             compare_model(d, twin_nodes(c2profile, self.nodes), what=f"view after {len(self.nodes)} modifications")
@@ -351,6 +366,10 @@ def dict_machine(stats, rec):
         @rule(kind=st.sampled_from(["as_dict", "properties"]))
         def read(self, kind):
             self.do((kind,))
+
+        @rule(block=st.booleans())
+        def siblings(self, block):
+            self.do(("siblings", block))
 
         def teardown(self):
             stats.evaluations += 1
